@@ -166,6 +166,26 @@ theorem tcAssign_ok {env : Env} (henv : EnvOK env) {l r : PExpr} {env' : Env} {t
     exact ⟨rfl, lk, e', rfl, hwl, h1, h2, ha⟩
   · exact (throw_ok h).elim
 
+theorem coerce_coercible {e : TE} {new : Ty} {e' : TE} (h : coerce e new = .ok e') : coercible e new = true := by
+  unfold coerce at h
+  split at h
+  · assumption
+  · exact (throw_ok h).elim
+
+/-- what a successful arithmetic node says about its operands -/
+theorem tcExpr_arith_inv {env : Env} {op : String} {aop : BinOp} {l r : PExpr} {te : TE} (ha : arithOpOf op = some aop)
+    (h : tcExpr env (.bin op l r) = .ok te) :
+    ∃ a b, tcExpr env l = .ok a ∧ tcExpr env r = .ok b ∧ coercible a .int = true ∧ coercible b .int = true := by
+  unfold tcExpr at h
+  split at h
+  · obtain ⟨a, ha', h⟩ := bind_ok h
+    obtain ⟨b, hb', h⟩ := bind_ok h
+    obtain ⟨ai, hai, h⟩ := bind_ok h
+    obtain ⟨bi, hbi, h⟩ := bind_ok h
+    exact ⟨a, b, ha', hb', coerce_coercible hai, coerce_coercible hbi⟩
+  · rename_i hn
+    rw [ha] at hn; cases hn
+
 theorem wtSs_eq_all (fs : List FuncSig) (rt : Ty) : ∀ l : List TS, wtSs fs rt l = l.all (wtS fs rt)
   | [] => by simp [wtSs]
   | s :: rest => by simp [wtSs, wtSs_eq_all fs rt rest]
@@ -225,6 +245,21 @@ theorem tcStmt_wt (rt : Ty) : ∀ (s : PStmt) (env env' : Env) (t : TS), EnvOK e
       obtain ⟨pr, hpr, h⟩ := bind_ok h
       obtain ⟨env1, eq⟩ := pr
       obtain ⟨_, lk0, e0, rfl, h1, _, _, h4⟩ := tcAssign_ok henv rt hp.1 (by simp [ptyE, hp.1, hp.2]) hpr
+      -- the operands of the equivalent assignment `l = l op r`
+      have hops : coercible lk0 .int = true ∧ ∀ e, tcExpr env r = .ok e → coercible e .int = true := by
+        unfold tcAssign at hpr
+        obtain ⟨lk1, hlk1, hpr⟩ := bind_ok hpr
+        split at hpr
+        · obtain ⟨e1, he1, hpr⟩ := bind_ok hpr
+          obtain ⟨e2, _, hpr⟩ := bind_ok hpr
+          have := pure_ok hpr
+          simp only [Prod.mk.injEq, TS.assign.injEq] at this
+          obtain ⟨_, rfl, _⟩ := this
+          obtain ⟨a, b, ha, hb, hca, hcb⟩ := tcExpr_arith_inv (show arithOpOf op = some aop from haop) he1
+          rw [hlk1] at ha
+          injection ha with ha; subst ha
+          exact ⟨hca, fun e he => by rw [hb] at he; injection he with he; subst he; exact hcb⟩
+        · exact (throw_ok hpr).elim
       dsimp only at h
       obtain ⟨lk, hlk, h⟩ := bind_ok h
       have := pure_ok hlk; subst this
@@ -233,7 +268,7 @@ theorem tcStmt_wt (rt : Ty) : ∀ (s : PStmt) (env env' : Env) (t : TS), EnvOK e
       simp only [Prod.mk.injEq] at this
       obtain ⟨rfl, rfl⟩ := this
       have hwe := tcExpr_wt env henv r e hp.2 he
-      exact StOK.same henv (by simp [wtS, h1, hwe, h4, arithOpOf_ok (show arithOpOf op = some aop from haop)])
+      exact StOK.same henv (by simp [wtS, h1, hwe, h4, arithOpOf_ok (show arithOpOf op = some aop from haop), hops.1, hops.2 e he])
   | .ret e, env, env', t, henv, hrt, hp, h => by
     unfold tcStmt at h
     split at h
